@@ -168,23 +168,6 @@ fn pack(o: &[u8]) -> u32 {
 }
 
 #[inline]
-fn demote_packed(o: u32, n: usize, t: u8) -> u32 {
-    let mut out = 0u32;
-    let mut k = 0;
-    for i in 0..n {
-        let x = ((o >> (4 * i)) & 0xF) as u8;
-        if x != t {
-            out |= (x as u32) << (4 * k);
-            k += 1;
-        }
-    }
-    if k < n {
-        out |= (t as u32) << (4 * k);
-    }
-    out
-}
-
-#[inline]
 fn top_packed(o: u32, n: usize, offered_mask: u32) -> u8 {
     for i in 0..n {
         let x = (o >> (4 * i)) & 0xF;
@@ -195,9 +178,44 @@ fn top_packed(o: u32, n: usize, offered_mask: u32) -> u8 {
     0xFF
 }
 
-/// Is the decision trace consistent with SOME strict priority order over ids `0..n` (n <= 8) that
-/// changes only when the running task yields (it moves to the lowest priority) or at no more than
-/// `depth - 1` change points, each of which moves only `current` to the lowest priority?
+/// all orders obtained from `o` by moving task `t` to a strictly lower rank
+#[inline]
+fn demotions_packed(o: u32, n: usize, t: u8, out: &mut Vec<u32>) {
+    out.clear();
+    let mut items = [0u8; 8];
+    let mut r = usize::MAX;
+    for i in 0..n {
+        items[i] = ((o >> (4 * i)) & 0xF) as u8;
+        if items[i] == t {
+            r = i;
+        }
+    }
+    if r == usize::MAX {
+        return;
+    }
+    // remove t, then insert it at every rank below its old one
+    for target in r + 1..n {
+        let mut v = 0u32;
+        let mut k = 0;
+        for (i, it) in items.iter().enumerate().take(n) {
+            if i == r {
+                continue;
+            }
+            v |= (*it as u32) << (4 * k);
+            k += 1;
+            if k == target {
+                v |= (t as u32) << (4 * k);
+                k += 1;
+            }
+        }
+        out.push(v);
+    }
+}
+
+/// Statement-level oracle.  Is the decision trace consistent with SOME strict priority order over
+/// ids `0..n` (n <= 8) that changes only when the running task yields or at no more than
+/// `depth - 1` change points, each change lowering only `current` (to any lower rank; the reference
+/// model's "to the lowest" is one of them; a yield may also leave the order unchanged)?
 /// (No task creation: all ids below 16 have a priority from the start.)  Ok(number of surviving
 /// candidates) or Err(index of the first decision that no candidate explains).
 pub fn consistent_with_some_order(trace: &[Decision], n: usize, depth: usize, perms: &[Vec<u8>]) -> Result<usize, usize> {
@@ -205,33 +223,24 @@ pub fn consistent_with_some_order(trace: &[Decision], n: usize, depth: usize, pe
     // candidate = (packed order, change points used)
     let mut cands: Vec<(u32, u8)> = perms.iter().map(|p| (pack(p), 0u8)).collect();
     let mut next: Vec<(u32, u8)> = Vec::with_capacity(cands.len() * 2);
+    let mut dem: Vec<u32> = Vec::with_capacity(8);
     for (i, d) in trace.iter().enumerate() {
         next.clear();
         let mut mask = 0u32;
         for t in &d.offered {
             mask |= 1 << *t;
         }
-        let multi = d.offered.len() > 1;
         for &(o, used) in &cands {
-            if multi && d.yielding {
-                let o2 = match d.current {
-                    Some(c) => demote_packed(o, n, c),
-                    None => o,
-                };
-                if top_packed(o2, n, mask) == d.chosen {
-                    next.push((o2, used));
-                }
-            } else {
-                if top_packed(o, n, mask) == d.chosen {
-                    next.push((o, used));
-                }
-                if multi {
-                    if let Some(c) = d.current {
-                        if (used as usize) + 1 < depth {
-                            let o2 = demote_packed(o, n, c);
-                            if o2 != o && top_packed(o2, n, mask) == d.chosen {
-                                next.push((o2, used + 1));
-                            }
+            if top_packed(o, n, mask) == d.chosen {
+                next.push((o, used));
+            }
+            if let Some(c) = d.current {
+                let free = d.yielding;
+                if free || (used as usize) + 1 < depth {
+                    demotions_packed(o, n, c, &mut dem);
+                    for &o2 in &dem {
+                        if top_packed(o2, n, mask) == d.chosen {
+                            next.push((o2, if free { used } else { used + 1 }));
                         }
                     }
                 }
@@ -242,6 +251,16 @@ pub fn consistent_with_some_order(trace: &[Decision], n: usize, depth: usize, pe
         }
         next.sort_unstable();
         next.dedup();
+        // a candidate with fewer change points used subsumes the same order with more
+        let mut w = 0;
+        for r in 0..next.len() {
+            if w > 0 && next[w - 1].0 == next[r].0 {
+                continue;
+            }
+            next[w] = next[r];
+            w += 1;
+        }
+        next.truncate(w);
         std::mem::swap(&mut cands, &mut next);
     }
     Ok(cands.len())
